@@ -41,6 +41,15 @@ CLAIMED = {
              "undecodable line. Panic-freedom of the slicing rests on the random-bytes stream under catch_unwind (PARTIAL there).",
         note=COMMON_NOTE + "A crash leaves a prefix of the bytes written.",
         technique="Coq proof by induction over entries and cut offsets (prefix-code property of UTF-8) + differential check over all cuts"),
+    "C18": dict(
+        text="Theorems, for every segmentation function: the byte arithmetic of apply_backspace_direct never panics and equals "
+             "the stack semantics (backspace removes the cluster before it) for clusters of any byte length; the result is a "
+             "sub-sequence of the input's clusters; without a validator successive reads return the successive lines without "
+             "LF/CRLF then end-of-file, the lines concatenating to the input; with a validator only accepted strings are "
+             "returned and Incomplete keeps the terminator. Tied to /repo by the direct stream (a child process with stdin a "
+             "pipe) and the seg stream (model segmentation vs unicode-segmentation).",
+        note=COMMON_NOTE + "Input streams are valid UTF-8; grapheme segmentation is the dependency's (modelled, compared on ~7k strings per run).",
+        technique="Coq proof (invariant over the cluster fold; induction over lines) + extracted-model differential check through a pipe"),
 }
 
 NOT_YET = "not claimed yet: model and theorems under construction (DESIGN.md section 8 gives the build order); no check is registered until it is sound"
